@@ -14,6 +14,7 @@ import (
 	"golang.org/x/crypto/openpgp"
 	"pault.ag/go/debian/changelog"
 	"pault.ag/go/debian/control"
+	"pault.ag/go/debian/deb"
 	"pault.ag/go/debian/dependency"
 	"pault.ag/go/debian/version"
 
@@ -41,9 +42,9 @@ func (c18) Batches(tier string, seed uint64) []core.Batch {
 	var b []core.Batch
 	// the concurrent batches come first: workers claim batches in order, so each conc batch is the first
 	// thing a fresh worker process does (no earlier batch has warmed or filled any process-wide state)
-	b = append(b, spread("conc", 4, tierN(tier, 6, 60))...)
+	b = append(b, spread("conc", 4, tierN(tier, 4, 60))...)
+	b = append(b, spread("big", 6, tierN(tier, 2, 8))...) // the slowest cases: claimed early
 	b = append(b, spread("seq", 12, tierN(tier, 450, 8000))...)
-	b = append(b, spread("big", 4, tierN(tier, 3, 12))...)
 	b = append(b, spread("reuse", 2, tierN(tier, 400, 4000))...)
 	return b
 }
@@ -83,6 +84,14 @@ func unmarshalEntry(name string, mk func() interface{}) c18Entry {
 		err := control.Unmarshal(v, bytes.NewReader(in))
 		return jsonRepr(v, err), err != nil, ""
 	}}
+}
+
+type c18Required struct {
+	control.Paragraph
+	Package string `required:"true"`
+	Version string `required:"true"`
+	Section string `required:"true"`
+	Origin  string `required:"true"`
 }
 
 var emptyKeyring = openpgp.EntityList{}
@@ -170,6 +179,9 @@ var c18Entries = []c18Entry{
 	unmarshalEntry("Unmarshal([]BinaryIndex)", func() interface{} { return &[]control.BinaryIndex{} }),
 	unmarshalEntry("Unmarshal([]SourceIndex)", func() interface{} { return &[]control.SourceIndex{} }),
 	unmarshalEntry("Unmarshal([]DSC)", func() interface{} { return &[]control.DSC{} }),
+	// types with several required fields (the control file of a .deb has three)
+	unmarshalEntry("Unmarshal(deb.Control)", func() interface{} { return &deb.Control{} }),
+	unmarshalEntry("Unmarshal(probe with 4 required fields)", func() interface{} { return &c18Required{} }),
 	{"ParseDsc", func(in []byte) (string, bool, string) {
 		d, err := control.ParseDsc(bufio.NewReader(bytes.NewReader(in)), "x.dsc")
 		x := ""
@@ -336,7 +348,7 @@ func c18SeedPlain(r *core.Rand) (string, string) {
 		if r.Bool() { // an index stanza whose dependency fields are present but malformed
 			return "typed", "Package: a\nVersion: 1\nDepends: libc6 (>= 2.30\nPre-Depends: x [amd64\nBreaks: y (<> 1)\nBuild-Depends: ${z\nBinary: a\nMaintainer: m\nArchitecture: any\n"
 		}
-		return "typed", "Package: a\nBinary: a, b\nVersion: 1.0-1\nMaintainer: x\nArchitecture: any all\nFiles:\n d41d8cd98f00b204e9800998ecf8427e 0 a_1.dsc\nChecksums-Sha256:\n e3b0c44298fc1c149afbf4c8996fb92427ae41e4649b934ca495991b7852b855 0 a_1.dsc\nInstalled-Size: 12\nSize: 7\n"
+		return "typed", "Package: a\nBinary: a, b\nVersion: 1.0-1\nMaintainer: x\nArchitecture: any all\nFiles:\n d41d8cd98f00b204e9800998ecf8427e 0 a_1.dsc\nChecksums-Sha256:\n e3b0c44298fc1c149afbf4c8996fb92427ae41e4649b934ca495991b7852b855 0 a_1.dsc\nInstalled-Size: 12\nSize: 7\nSection: misc\nOrigin: debian\n"
 	default:
 		return "raw", string(r.Bytes(r.Range(0, 60)))
 	}
@@ -441,6 +453,10 @@ func (p c18) conc(c *core.C, inputs []string) {
 	// would order the calls and hide exactly the races it is looking for. Results and call intervals are
 	// kept in goroutine-local storage and compared after the round.
 	const G = 16
+	passes := 1 // first pass: all goroutines on the same input; a second, staggered pass in the thorough tier
+	if c.Tier() == "thorough" {
+		passes = 2
+	}
 	type span struct{ t0, t1 int64 }
 	results := make([]map[[2]int]string, G)
 	spans := make([][]span, G)
@@ -465,7 +481,7 @@ func (p c18) conc(c *core.C, inputs []string) {
 					}
 				}()
 				<-start
-				for rep := 0; rep < 2; rep++ {
+				for rep := 0; rep < passes; rep++ {
 					for d := 0; d < hi-lo; d++ {
 						i := lo + (d+g*rep)%(hi-lo) // first pass: all goroutines on the same input; second pass: staggered
 						for k, e := range c18Entries {
@@ -563,7 +579,9 @@ func (p c18) RunBatch(t *core.T, b core.Batch) {
 			var big string
 			switch i % 4 {
 			case 0: // one long token
-				big = strings.Repeat(r.Pick([]string{"a", "1", "~", "(", "[", "<", "x:", "${"}), 65536)
+				// (the dependency parser is quadratic in the length of a single token: 64 KiB of one token costs
+				// about a second per call, several under the race detector - the quick tier stops at 24 KiB)
+				big = strings.Repeat(r.Pick([]string{"a", "1", "~", "(", "[", "<", "x:", "${"}), tierN(t.Tier, 24576, 65536))
 			case 1: // repetition of a document
 				for len(big) < 60000 {
 					big += s + r.Pick([]string{"", "\n", ", ", " | "})
